@@ -234,6 +234,24 @@ def subject(case):
             except Exception as e:  # noqa
                 r['part_exc'] = common.exc_class(e) + ': ' + str(e)[:80]
             out['paths'].append(r)
+        # the children of the parent selected by a wildcard-terminated path: .../parent[k]/*
+        if a:
+            par = a[:-1]
+            p = path_of(doc, par, ns, True, case['default_ns']) + '/*'
+            r = {'addr': list(a), 'path': p, 'positions': False, 'same_decl': True}
+            sibs = [par + (i,) for i in range(len(elems[par]))]
+            try:
+                part = list(s.iter_decode(res, path=p, namespaces=nsmap, validation='lax', converter=conv))
+                r['part'] = [strip_root_xmlns(x) for x in part if not isinstance(x, Exception)]
+                r['part_errors'] = sorted(str(x.reason)[:60] for x in part if isinstance(x, Exception))
+                r['want'] = [jsonml_sub(full, b) for b in sibs]
+                r['want_errors'] = sorted(reason for pth, reason in full_errors
+                                          if any(pth == path_of(doc, b, ns, True, case['default_ns']) or
+                                                 pth.startswith(path_of(doc, b, ns, True, case['default_ns']) + '/') for b in sibs))
+            except Exception as e:  # noqa
+                r['part_exc'] = common.exc_class(e) + ': ' + str(e)[:80]
+            if not any(x['path'] == p for x in out['paths']):
+                out['paths'].append(r)
     out['depth'] = {}
     for k in (1, 2, 3, 4):
         try:
